@@ -53,7 +53,10 @@ class Report:
                 print(f"note: known finding {f['id']} did not reproduce in this run (not counted either way)")
         # group violations by (target) to keep the output readable: one VIOLATION line per failed obligation, capped per target
         printed = 0
-        for o in violations:
+        # reproduced failures first; at most 60 VIOLATION lines are printed (all are counted in the evidence)
+        violations.sort(key=lambda o: 0 if (o.get('replay') or {}).get('reproduced') else 1)
+        if len(violations) > 60: print(f"note: {len(violations)} refuted obligations; printing the first 60")
+        for o in violations[:60]:
             path = self.write_replay(o, replay_dir)
             rp = o.get('replay') or {}
             suffix = '' if rp.get('reproduced') else ' no-failing-input-found'
